@@ -287,6 +287,19 @@ def _validate_types(nodes: dict[str, HyperNode], nx_graph: nx.DiGraph) -> None:
 # =============================================================================
 
 
+def _interrupt_names_at_any_depth(graph: Graph, prefix: str = "") -> list[str]:
+    """Path-qualified names of the InterruptNodes of a graph and of its nested graphs."""
+    from hypergraph.nodes.graph_node import GraphNode
+
+    names: list[str] = []
+    for node in graph._nodes.values():
+        if node.is_interrupt:
+            names.append(f"{prefix}{node.name}")
+        elif isinstance(node, GraphNode):
+            names.extend(_interrupt_names_at_any_depth(node.graph, f"{prefix}{node.name}/"))
+    return names
+
+
 def _validate_no_interrupt_in_map_over(nodes: dict[str, HyperNode]) -> None:
     """GraphNodes with map_over cannot wrap graphs containing InterruptNodes."""
     from hypergraph.nodes.graph_node import GraphNode
@@ -296,9 +309,9 @@ def _validate_no_interrupt_in_map_over(nodes: dict[str, HyperNode]) -> None:
             continue
         if not (hasattr(node, "map_config") and node.map_config):
             continue
-        if not node.graph.has_interrupts:
+        interrupt_names = _interrupt_names_at_any_depth(node.graph)
+        if not interrupt_names:
             continue
-        interrupt_names = [n.name for n in node.graph.interrupt_nodes]
         raise GraphConfigError(
             f"GraphNode '{node.name}' has map_over but wrapped graph contains "
             f"InterruptNode(s): {', '.join(interrupt_names)}. "
